@@ -31,6 +31,26 @@ PROPS["C10"] = dict(
     assumptions=["actor type is a lawful total order", "u64 counters do not overflow"],
 )
 
+PROPS["C11"] = dict(
+    lean_targets=["CrdtModel.Props.C11"],
+    audit="CrdtModel/Audit/C11.lean",
+    required_theorems=[
+        "Crdt.C11.gcounter_entry", "Crdt.C11.gcounter_read", "Crdt.C11.gcounter_monotone", "Crdt.C11.gcounter_apply_inc_many",
+        "Crdt.C11.pncounter_entries", "Crdt.C11.maxreg_read", "Crdt.C11.minreg_read", "Crdt.C11.lwwreg_read",
+        "Crdt.C11.lwwreg_conflict_iff", "Crdt.C11.gset_read",
+    ],
+    profiles=[
+        dict(name="lattice_hist", quick=1800, thorough=30000),
+        dict(name="lww_conflict", quick=300, thorough=5000),
+    ],
+    explanation="GCounter/PNCounter/GSet/LWWReg/MaxReg/MinReg: representation theorems under NO delivery discipline (any order, duplicates, "
+                "merges of live and stale states) give the exact read as a function of the set of ops learned; generation lemmas give "
+                "'inc_many adds exactly k at the origin'. Correspondence: random histories (2-3 replicas, any order, dups, merges, snapshots) "
+                "with the Lean spec value printed next to every observation and compared with the implementation.",
+    statement_coverage="full statement proved; u64 overflow outside the model; LWWReg under the property's premise (unique markers)",
+    assumptions=["element/actor/marker types are lawful total orders", "u64 counters do not overflow (Rust would panic/wrap; model uses Nat)"],
+)
+
 # --------------------------------------------------------------------------------------------
 # text for MANIFEST.json
 # --------------------------------------------------------------------------------------------
@@ -45,5 +65,12 @@ MANIFEST_TEXT = {
              "table (3 actors x counters 0..3, every function) plus random/malformed streams and VClock-as-CRDT histories.",
         note=NOTE, technique="Lean 4 proof (pointwise characterisation lemmas) + differential correspondence check", design_ref="DESIGN.md §7 C10"),
 }
+
+MANIFEST_TEXT["C11"] = dict(
+    text="Unbounded Lean theorems: for every derivable replica state (any delivery order, duplication, merge pattern, any number of replicas) "
+         "GCounter holds per actor the largest running total learned and reads their sum, PNCounter reads P-N, Max/MinReg the extreme of all applied values, "
+         "LWWReg the write with the greatest marker (unique markers) and flags equal-marker/different-value exactly, GSet the union; inc_many adds exactly k at the origin. "
+         "Model tied to the code by differential histories with spec values compared against the implementation.",
+    note=NOTE, technique="Lean 4 proof (representation invariant by induction over derivations) + differential correspondence check", design_ref="DESIGN.md §7 C11")
 
 NOT_APPLICABLE = {f"C{i:02d}": "check under construction in this session (model + theorems not yet committed); will be claimed, not switched to another technique" for i in range(1, 21)}
